@@ -357,3 +357,15 @@ func asIfIn(f *eng.Fn, st ast.Stmt) (cond ast.Expr, body, els []ast.Stmt, ok boo
 	}
 	return
 }
+
+// nodeContains reports whether sub is root or one of its descendants.
+func nodeContains(root, sub ast.Node) bool {
+	found := false
+	ast.Inspect(root, func(x ast.Node) bool {
+		if x == sub {
+			found = true
+		}
+		return !found
+	})
+	return found
+}
